@@ -78,7 +78,9 @@ def r02_1(prog, rep):
                     x = x[2][0]
                 if x[0] == "ifexp" and x[2][0] == "call":
                     continue  # (the reference arm of the helper, judged by bytes-guard-reference)
-                subjects.append(x)
+                # (decided on the path when the choice is an if statement: `if t is None: hint = value.__class__`)
+                none_known = [pol for gg, pol in p.guards() if gg[0] == "cmp" and gg[1] == "is" and {gg[2], gg[3]} == {("param", "t"), ("const", None)}]
+                subjects.append((x, none_known[-1] if none_known else None))
     TP, VAL = ("param", "t"), ("param", "value")
 
     def under(x, t_is_none):
@@ -95,8 +97,8 @@ def r02_1(prog, rep):
         return y
 
     if subjects:
-        good = all(under(x, True) == ("attr", VAL, "__class__") and under(x, False) == TP for x in subjects)
-        rep.check(good, "R02.1", e.qualname, e.loc, "the verbatim decision is taken on `t`, or on the value's class when no t is given", f"encode() decides whether the value travels verbatim on {T.show(subjects[0])[:70]}: with t omitted (or given) the decision is about another type than the one the marshaller is built for -- typelib.encode(b'x') hands bytes to the JSON encoder (TypeError), or a bytes value is returned unencoded for a non-bytes t", detail="encode-verbatim-subject")
+        good = all((under(x, True) == ("attr", VAL, "__class__") or nk is False) and (under(x, False) == TP or nk is True) for x, nk in subjects) and any(nk is not False for _, nk in subjects) and any(nk is not True for _, nk in subjects)
+        rep.check(good, "R02.1", e.qualname, e.loc, "the verbatim decision is taken on `t`, or on the value's class when no t is given", f"encode() decides whether the value travels verbatim on {T.show(subjects[0][0])[:70]}: with t omitted (or given) the decision is about another type than the one the marshaller is built for -- typelib.encode(b'x') hands bytes to the JSON encoder (TypeError), or a bytes value is returned unencoded for a non-bytes t", detail="encode-verbatim-subject")
     d = prog.function("typelib.api.decode")
     for p, r in P.returns(P.splice_helpers(prog, P.paths_of(prog, d))):
         ok = T.is_call_to(r, "typelib.unmarshals.api.unmarshal") and _arg(r, 0, "t") == ("param", "t")
